@@ -55,9 +55,11 @@ class HarnessError(RuntimeError):
 # ------------------------------------------------------------------------------------------------
 # the grid (mirror of ClfConnect!IsCfg)
 
-def variants(with_disc):
+def variants(with_disc, is_card=False):
     absent = dict(has=False, su="keep", disc=True, conn=True, rel=True)
-    out = [absent, dict(has=True, su="drop", disc=True, conn=True, rel=True),
+    # the option given as {}: all documented defaults (card: the default on-startup returns None = option removed)
+    empty = dict(has=True, su="drop" if is_card else "keep", disc=True, conn=True, rel=True, empty=True)
+    out = [absent, empty, dict(has=True, su="drop", disc=True, conn=True, rel=True),
            dict(has=True, su="wrong", disc=True, conn=True, rel=True),
            dict(has=True, su="keep", disc=True, conn=False, rel=True),
            dict(has=True, su="keep", disc=True, conn=True, rel=True),
@@ -73,9 +75,11 @@ ENVS = ("nothing", "tag", "tagU", "tagX", "peerT", "peerI", "reader", "ioerror",
 def grid(kmax, tmax):
     for r in variants(True):
         for l in variants(False):
-            for c in variants(True):
-                beeps = (False, True) if (r["has"] and r["su"] == "keep" and r["disc"] and r["conn"]) else (True,)
-                roles = ("both", "initiator", "target") if (l["has"] and l["su"] == "keep") else ("both",)
+            for c in variants(True, True):
+                beeps = (False, True) if (r["has"] and r["su"] == "keep" and r["disc"] and r["conn"]
+                                          and not r.get("empty")) else (True,)
+                roles = ("both", "initiator", "target") if (l["has"] and l["su"] == "keep"
+                                                            and not l.get("empty")) else ("both",)
                 for e in ENVS:
                     ks = (0,) if e in ("nothing", "ioerror", "unsupported") else range(kmax + 1)
                     for b in beeps:
@@ -89,13 +93,15 @@ def mkcfg(r, l, c, b, ro, e, k, t):
     d = dict(zip(OPTS, (r, l, c)))
     return dict(has={o: d[o]["has"] for o in OPTS}, su={o: d[o]["su"] for o in OPTS},
                 disc={o: d[o]["disc"] for o in OPTS}, conn={o: d[o]["conn"] for o in OPTS},
-                rel={o: d[o]["rel"] for o in OPTS}, beep=b, role=ro, env=e, k=k, termAt=t)
+                rel={o: d[o]["rel"] for o in OPTS}, empty={o: bool(d[o].get("empty")) for o in OPTS}, beep=b, role=ro, env=e, k=k, termAt=t)
 
 
 def cfg_id(c):
     def ov(o):
         if not c["has"][o]:
             return "-"
+        if c["empty"][o]:
+            return "{}"
         if c["su"][o] != "keep":
             return c["su"][o][0]
         return "k%d%d%d" % (c["disc"][o], c["conn"][o], c["rel"][o])
@@ -257,7 +263,10 @@ class ConnectRun(object):
         if t is None:
             self.emit("Sense", r="none")
         else:
-            self.emit("Sense", r="dep" if (t.sel_res and t.sel_res[0] & 0x40) else "tag")
+            isdep = bool(t.sel_res and t.sel_res[0] & 0x40)
+            self.emit("Sense", r="dep" if isdep else "tag")
+            if self.cfg["empty"]["rdwr"] and not isdep:
+                self.set_activating(True)          # the default on-discover accepts every tag: activation follows
         return t
 
     def listen(self, target, timeout):
@@ -277,8 +286,13 @@ class ConnectRun(object):
             return
         status = self.dev.log[-1][2]
         if method == "turn_on_led_and_buzzer":
+            if self.cfg["empty"]["rdwr"]:
+                self.set_activating(False)
+                self.phase = "presence"            # default on-connect returned True (no recorder to tell us)
             self.emit("Led", r="T")
         elif method == "turn_off_led_and_buzzer":
+            if self.cfg["empty"]["rdwr"]:
+                self.phase = ""
             self.emit("Led", r="F")
         elif method == "send_cmd_recv_rsp" and self.phase == "presence":
             if status == "ok":
@@ -287,6 +301,30 @@ class ConnectRun(object):
                 self.emit("Presence", r="F")        # the tag module's retries of one check are one step
         elif method == "send_rsp_recv_cmd" and self.phase == "serve":
             self.emit("Serve", r=B(status == "ok"))
+
+    def instrument_llc_class(self):
+        """llcp={} : connect() creates the controller itself and no callback hands it out - observe through the class"""
+        LLC = nfc.llcp.llc.LogicalLinkController
+        saved = (LLC.activate, LLC.exchange, LLC.terminate)
+
+        class Holder(object):
+            pass
+        h = Holder()
+        h.activate = lambda mac, **kw: saved[0](h.llc, mac=mac, **kw)
+        h.exchange = lambda send_pdu, timeout: saved[1](h.llc, send_pdu, timeout)
+        h.terminate = lambda reason: saved[2](h.llc, reason)
+        self.instrument_llc(h)
+
+        def bind(name):
+            def f(llc, *a, **kw):
+                h.llc = llc
+                return getattr(h, name)(*a, **kw)
+            return f
+        LLC.activate, LLC.exchange, LLC.terminate = bind("activate"), bind("exchange"), bind("terminate")
+
+        def restore():
+            LLC.activate, LLC.exchange, LLC.terminate = saved
+        return restore
 
     def instrument_llc(self, llc):
         orig_activate, orig_exchange, orig_terminate = llc.activate, llc.exchange, llc.terminate
@@ -347,7 +385,10 @@ class ConnectRun(object):
                 self.cb("Release", o, B(v))
                 return v
             return f
-        if c["has"]["rdwr"]:
+        for o in OPTS:
+            if c["empty"][o]:
+                kw[o] = {}
+        if c["has"]["rdwr"] and not c["empty"]["rdwr"]:
             def su_rdwr(targets):
                 self.cb("Startup", "rdwr", c["su"]["rdwr"])
                 return {"keep": targets, "drop": [], "wrong": ["106A"]}[c["su"]["rdwr"]]
@@ -357,7 +398,7 @@ class ConnectRun(object):
                           "on-discover": recorder("Discover", "rdwr", c["disc"], self.set_activating),
                           "on-connect": recorder("Connect", "rdwr", c["conn"], phase_setter("presence")),
                           "on-release": release("rdwr"), "beep-on-connect": c["beep"]}
-        if c["has"]["llcp"]:
+        if c["has"]["llcp"] and not c["empty"]["llcp"]:
             def su_llcp(llc):
                 self.cb("Startup", "llcp", c["su"]["llcp"])
                 if c["su"]["llcp"] == "keep":
@@ -368,7 +409,7 @@ class ConnectRun(object):
                           "on-release": release("llcp")}
             if c["role"] != "both":
                 kw["llcp"]["role"] = c["role"]
-        if c["has"]["card"]:
+        if c["has"]["card"] and not c["empty"]["card"]:
             def su_card(target):
                 self.cb("Startup", "card", c["su"]["card"])
                 if c["su"]["card"] == "keep":
@@ -383,6 +424,7 @@ class ConnectRun(object):
 
     def run(self):
         kw = self.options()
+        restore = self.instrument_llc_class() if self.cfg["empty"]["llcp"] else (lambda: None)
         self.emit("Begin")
         try:
             r = self.clf.connect(**kw)
@@ -391,6 +433,8 @@ class ConnectRun(object):
         except BaseException as e:                 # noqa: the contract allows no exception here
             self.emit("Raise", r=type(e).__name__)
             return self.trace()
+        finally:
+            restore()
         if r is None:
             v = "None"
         elif r is True:
@@ -737,6 +781,8 @@ def run(tier, seed):
     # over the grid, plus a complete sweep over all types x faults for the rdwr-only configurations below).
     types, combos = sorted(TAG_TYPES), fault_combos()
     typed, n = [], 0
+    # (a disturbed activation is not combined with rdwr={}: without callbacks its outcome is not observable)
+    todo = [c for c in todo if not (c["env"] == "tagX" and c["empty"]["rdwr"])]
     for c in todo:
         if c["env"] in TAG_ENVS and c["has"]["rdwr"] and c["su"]["rdwr"] == "keep":
             n += 1
@@ -753,10 +799,10 @@ def run(tier, seed):
     # iterations x interval of the rdwr sense loop (rounds take 31 ms of virtual time per target)
     sps = [(i, v) for i in (1, 2, 3, 5) for v in (0.0, 0.001, 0.1)]
     for n, c in enumerate(typed):
-        if c["has"]["rdwr"] and c["su"]["rdwr"] == "keep" and n % 2:
+        if c["has"]["rdwr"] and c["su"]["rdwr"] == "keep" and n % 2 and not c["empty"]["rdwr"]:
             c["sp"] = sps[(n // 2) % len(sps)]
     absent = variants(True)[0]
-    bases = [v for v in variants(True) if v["has"] and v["su"] == "keep" and v["disc"]]
+    bases = [v for v in variants(True) if v["has"] and v["su"] == "keep" and v["disc"] and not v.get("empty")]
     for r in (bases if not quick else [b for b in bases if b["rel"]]):
         for k, t in (((1, 3),) if quick else ((0, 2), (1, 3), (2, 6))):
             for tt in types:
